@@ -11,9 +11,14 @@ from .values import *  # noqa: F401,F403
 MAXLOOP = 64
 
 
+EXTRA_CFGS = set()        # cfg attributes additionally treated as enabled (a driver may add 'cfg(walrus_verif)')
+
+
 def cfg_ok(cfgs):
     for c in cfgs or []:
         c = c.replace(' ', '')
+        if c in EXTRA_CFGS:
+            continue
         if c in ('cfg(target_os="linux")', 'cfg(unix)'):
             continue
         if c.startswith('cfg(not('):
